@@ -33,7 +33,7 @@ fn one<X: Sx>(ctx: &Ctx, idx: u64, l: usize, exhaustive_upto: usize) {
     let (sk, pk) = keypair::<X>(&mut r);
     let msgs = gen_messages(&mut r, l, idx as usize);
     let hdr = Hdr::gen(&mut r, &[1, 16, 300]);
-    let Some(sig) = ctx.call("sign", "honest", None, || Sig::<X>::sign(Some(&msgs), &sk, &pk, hdr.as_opt())).value else {
+    let Some(sig) = ctx.call("sign", "honest", Some(l as u64 + 64), || Sig::<X>::sign(Some(&msgs), &sk, &pk, hdr.as_opt())).value else {
         ctx.inconclusive("C03: honest sign failed (C01's business)");
         return;
     };
@@ -52,7 +52,7 @@ fn one<X: Sx>(ctx: &Ctx, idx: u64, l: usize, exhaustive_upto: usize) {
         ctx.distinct(&case);
         let d_opt: Option<&[usize]> = if d.is_empty() && k % 2 == 0 { None } else { Some(d) };
         let m_opt: Option<&[Vec<u8>]> = if l == 0 && k % 2 == 0 { None } else { Some(&msgs) };
-        let g = ctx.call("proof_gen", &case, None, || Pok::<X>::proof_gen(&pk, &sigb, hdr.as_opt(), ph.as_opt(), m_opt, d_opt));
+        let g = ctx.call("proof_gen", &case, Some(l as u64 + 64), || Pok::<X>::proof_gen(&pk, &sigb, hdr.as_opt(), ph.as_opt(), m_opt, d_opt));
         let detail = || json!({"case":case,"sk":hx(&sk.to_bytes()),"header":hx(hdr.octets()),"ph":hx(ph.octets()),"messages":msgs_json(&msgs),"disclosed":d,"sig":hx(&sigb)});
         let Some(proof) = g.value else {
             ctx.violation("C03:proof_gen-failed", json!({"outcome":g.outcome.short(),"d":detail()}));
@@ -68,17 +68,17 @@ fn one<X: Sx>(ctx: &Ctx, idx: u64, l: usize, exhaustive_upto: usize) {
         }
         let dm: Vec<Vec<u8>> = d.iter().map(|&i| msgs[i].clone()).collect();
         let dm_opt: Option<&[Vec<u8>]> = if dm.is_empty() && k % 2 == 0 { None } else { Some(&dm) };
-        let v = ctx.call("proof_verify", &case, None, || proof.proof_verify(&pk, dm_opt, d_opt, hdr.as_opt(), ph.as_opt()));
+        let v = ctx.call("proof_verify", &case, Some(l as u64 + 64), || proof.proof_verify(&pk, dm_opt, d_opt, hdr.as_opt(), ph.as_opt()));
         if !v.outcome.is_ok() {
             ctx.violation("C03:honest-proof-rejected", json!({"outcome":v.outcome.short(),"proof":hx_full(&pb),"d":detail()}));
         }
-        let dec = ctx.call("from_bytes", &case, None, || Pok::<X>::from_bytes(&pb));
+        let dec = ctx.call("from_bytes", &case, Some(l as u64 + 64), || Pok::<X>::from_bytes(&pb));
         match dec.value {
             Some(p2) => {
                 if p2 != proof || p2.to_bytes() != pb {
                     ctx.violation("C03:roundtrip-differs", json!({"proof":hx_full(&pb),"d":detail()}));
                 }
-                let v = ctx.call("proof_verify", &case, None, || p2.proof_verify(&pk, dm_opt, d_opt, hdr.as_opt(), ph.as_opt()));
+                let v = ctx.call("proof_verify", &case, Some(l as u64 + 64), || p2.proof_verify(&pk, dm_opt, d_opt, hdr.as_opt(), ph.as_opt()));
                 if !v.outcome.is_ok() {
                     ctx.violation("C03:decoded-proof-rejected", json!({"outcome":v.outcome.short(),"proof":hx_full(&pb),"d":detail()}));
                 }
